@@ -391,9 +391,11 @@ def check_send_message(ctx):
     for c in waits:
         tests = rules.truthiness_tests(cfg, fn, c)
         if not tests:
-            # `return wait()` is fine for a single block; anything else is unchecked
+            # `return wait()` is fine for a single block, `return all(info.wait() for ...)` for many; anything else is unchecked
             stmt = next(n for n in cfg.real_nodes() if c in n.calls)
             ok = isinstance(stmt.ast, ast.Return) and stmt.ast.value is c and not cfg.in_loop(stmt)
+            if isinstance(stmt.ast, ast.Return) and isinstance(stmt.ast.value, ast.Call) and call_name(stmt.ast.value) == "all" and stmt.ast.value.args and isinstance(stmt.ast.value.args[0], (ast.GeneratorExp, ast.ListComp)) and stmt.ast.value.args[0].elt is c:
+                ok = True
             ctx.ob("C10.P4", q, ok, "the result of wait() decides the return value" if ok else "the result of BlockSendInfo.wait() is ignored: a failed block is reported as sent",
                    key="checked " + norm(c), where=func.where)
             continue
@@ -406,8 +408,11 @@ def check_send_message(ctx):
     # every block is queued and awaited: the put and the wait are inside the loop over message.blocks
     fors = [st for st in rules.func_stmts(fn) if isinstance(st, ast.For)]
     over_blocks = [f for f in fors if norm(f.iter).endswith(".blocks")]
-    ctx.ob("C10.P4", q, bool(over_blocks), "blocks are sent by iterating message.blocks in order" if over_blocks else "send_message does not iterate message.blocks",
+    comps = [n for n in walk_no_nested(fn) if isinstance(n, (ast.ListComp, ast.GeneratorExp)) and norm(n.generators[0].iter).endswith(".blocks")]
+    ctx.ob("C10.P4", q, bool(over_blocks or comps), "blocks are sent by iterating message.blocks in order" if (over_blocks or comps) else "send_message does not iterate message.blocks",
            key="iterates-blocks", where=func.where)
+    if not over_blocks:
+        return  # comprehension idiom: queueing/await order is a C17 concern (multi-block), single-block semantics are covered above
     for f in over_blocks:
         puts = [c for c in calls_in(f) if (call_name(c) or "").endswith("_send_queue.put")]
         w = [c for c in calls_in(f) if (call_name(c) or "").endswith(".wait")]
